@@ -24,7 +24,7 @@ esac
 BIN="$HERE/target/x86_64-unknown-linux-gnu/release"
 SECS="${YQV_FUZZ_SECONDS:-240}"
 JOBS="${YQV_FUZZ_JOBS:-8}"
-WORK="$ROOT/target/fuzz-run/$ID"
+WORK="${YQV_TARGET:-$ROOT/target}/fuzz-run/$ID"
 rm -rf "$WORK"; mkdir -p "$WORK"
 rc=0
 total=0
@@ -46,7 +46,7 @@ for t in $TARGETS; do
         # returns zeros once its stream is used up and rejection sampling then spins), not of the library:
         # the conversion is given 90 s; if it stalls too, or if the case passes the oracle when replayed,
         # the artifact is counted and kept, but it is not a verdict.
-        timeout -k 5 90 "$ROOT/target/opt/yqv" "$ID" --fuzz-artifact "$t" "$a"
+        timeout -k 5 90 "${YQV_TARGET:-$ROOT/target}/opt/yqv" "$ID" --fuzz-artifact "$t" "$a"
         r=$?
         case "$(basename "$a")" in timeout-*|oom-*) if [ $r -ne 1 ]; then stalled=$((stalled + 1)); r=0; fi ;; esac
         if [ $r -eq 124 ] || [ $r -eq 137 ]; then stalled=$((stalled + 1)); r=0; fi
@@ -54,7 +54,7 @@ for t in $TARGETS; do
     done
 done
 # record what the campaign covered in the evidence file of the thorough run
-python3 - "$ROOT/evidence/$ID.json" "$total" "$SECS" "$JOBS" "$TARGETS" "$rc" "$stalled" <<'PY'
+python3 - "${YQV_SCRATCH:-$ROOT}/evidence/$ID.json" "$total" "$SECS" "$JOBS" "$TARGETS" "$rc" "$stalled" <<'PY'
 import json, sys
 p, total, secs, jobs, targets, rc, stalled = sys.argv[1], int(sys.argv[2]), int(sys.argv[3]), int(sys.argv[4]), sys.argv[5], int(sys.argv[6]), int(sys.argv[7])
 try:
